@@ -50,6 +50,53 @@ var cfgs = []cfgGen{
 	{"reset_peer", func(r *rng.R) (int64, int64, int64) { return int64(r.Pick(0, 1, 100, 2000)), 0, 0 }},
 }
 
+// wild: attribute values over the whole int64 range (C07: zero, negative and extreme numbers).
+var wild = []int64{0, 0, 1, -1, 2, 3, 7, 100, -100, 1000, 1 << 31, 1 << 32, (1 << 62) - 1, 1 << 62, (1 << 62) + 1,
+	(1 << 63) - 1, -(1 << 62), -(1 << 63), (1<<63 - 1) / 100, (1<<63-1)/100 + 1, (1<<63 - 1) / 2, (1<<63-1)/2 + 1}
+
+func pickWild(r *rng.R) int64 { return wild[r.Intn(len(wild))] }
+
+// WildEpisode: one toxic with attributes from the wild set, small chunks, short advances.
+func WildEpisode(r *rng.R, k int) []string {
+	c := cfgs[k%len(cfgs)]
+	a1, a2, a3 := pickWild(r), pickWild(r), pickWild(r)
+	if r.Chance(1, 3) {
+		a1, _, _ = c.gen(r) // one sensible attribute among wild ones
+	}
+	if r.Chance(1, 3) {
+		_, a2, _ = c.gen(r)
+	}
+	if c.ty == "slicer" && r.Chance(1, 2) {
+		a3 = int64(r.Pick(0, 1, 100)) // a wild delay (µs) only stretches the episode
+	}
+	tox := pickTox(r)
+	ops := []string{fmt.Sprintf("cfg %s %d %d %d tox %s incap %d", c.ty, a1, a2, a3, tox, r.Pick(0, 1, 1024)), "sink 1", "start " + pickDraw(r, tox)}
+	n := 3 + r.Intn(10)
+	for i := 0; i < n; i++ {
+		switch x := r.Intn(10); {
+		case x < 4:
+			if c.ty == "latency" || c.ty == "slicer" {
+				var ds []string
+				for j := 0; j < 40; j++ {
+					ds = append(ds, fmt.Sprint(r.Pick(0, 1, 5, 1000)))
+				}
+				ops = append(ops, "draws "+strings.Join(ds, " "))
+			}
+			ops = append(ops, fmt.Sprintf("in %d", r.Pick(1, 1, 2, 3, 10, 100, 101, 1000)))
+		case x < 7:
+			ops = append(ops, fmt.Sprintf("adv %d", []int64{0, 1, MS, 100 * MS, 100*MS + 1, 1000 * MS}[r.Intn(6)]))
+		case x == 7:
+			ops = append(ops, "take")
+		case x == 8:
+			ops = append(ops, "intr", "adv 0", "start "+pickDraw(r, tox))
+		default:
+			ops = append(ops, fmt.Sprintf("sink %d", r.Intn(2)))
+		}
+	}
+	ops = append(ops, "adv 1000000000", "take")
+	return ops
+}
+
 func pickTox(r *rng.R) string {
 	return []string{"1", "1", "1", "0", "0.5", "0.3", "0.999"}[r.Intn(7)]
 }
@@ -236,6 +283,9 @@ func Sweep(e *Engine, tier string, seed uint64, only string, res *report.Result)
 	}
 	for i := 0; i < n; i++ {
 		ops := Episode(r, kinds[i%len(kinds)])
+		if e.Wild {
+			ops = WildEpisode(r, kinds[i%len(kinds)])
+		}
 		if f := e.Run(ops, res); f != nil {
 			report1(ops, f)
 			if len(res.Failures) >= 3 {
